@@ -113,11 +113,14 @@ func (f frac) String() string { return fmt.Sprintf("%d/%d", f.n, f.d) }
 
 // crossing estimates the least count c with base*(n/d)^c >= 2^bits (-1 if the product never grows);
 // the generators probe a window around it, so an estimate within +-1 is enough.
-func crossing(base int64, f frac, bits uint) int {
+func crossing(base int64, f frac, bits uint) int { return crossingLog(base, f, float64(bits)) }
+
+// crossingLog: the same for the target 2^log2target.
+func crossingLog(base int64, f frac, log2target float64) int {
 	if f.n <= f.d || base <= 0 {
 		return -1
 	}
-	need := float64(bits) - math.Log2(float64(base))
+	need := log2target - math.Log2(float64(base))
 	if need <= 0 {
 		return 0
 	}
@@ -217,6 +220,10 @@ func backoffGen(rng *proto.RNG, tier string, shard, nshards int, w *bufio.Writer
 		}
 		c63 := crossing(b, mu, 63)
 		c1024 := crossing(1, mu, 1024)
+		cMax := -1 // where the band straddles maxDelay
+		if m > 0 {
+			cMax = crossingLog(b, mu, math.Log2(float64(m)))
+		}
 		var lines []string
 		add := func(c int, l int64) {
 			if c < 0 {
@@ -227,7 +234,13 @@ func backoffGen(rng *proto.RNG, tier string, shard, nshards int, w *bufio.Writer
 		n := rng.Range(4, 24)
 		for j := 0; j < n; j++ {
 			var c int
-			switch rng.Pick(5, 4, 3, 3, 1, 1) {
+			switch rng.Pick(5, 4, 3, 3, 1, 1, 4) {
+			case 6:
+				if cMax >= 0 {
+					c = cMax + rng.Range(-2, 2)
+				} else {
+					c = rng.Range(0, 40)
+				}
 			case 0:
 				c = rng.Range(0, 70)
 			case 1:
